@@ -44,7 +44,7 @@ def plan(tier, prop):
                             "explicit_overlap_rejected",
                             "overflow_rejected", "assign_repeated",
                             "assign_failed", "value_too_large_rejected",
-                            "tag_mask", "completeness_instance",
+                            "tag_mask", "completeness_instance", "two_selector_prelude",
                             "add_after_assign", "negative_start",
                             "known_finding_scope_mixed"],
         "knob_ranges": {"length": "1-64", "fields": "0-12", "depth": "0-3",
@@ -256,12 +256,13 @@ class BitfieldEngine(object):
         return self.views[self.t.draw(len(self.views))]
 
     # -- operations --------------------------------------------------------
-    def op_add_field(self):
+    def op_add_field(self, forced=None):
+        """forced: (view, identifier, mode) for the scripted prelude."""
         t, w = self.t, self.w
-        v = self.pick_view()
+        v = self.pick_view() if forced is None else forced[0]
         L = self.length
-        ident = IDENTS[t.draw(len(IDENTS))]
-        mode = t.weighted([4, 2, 2, 2])
+        ident = IDENTS[t.draw(len(IDENTS))] if forced is None else forced[1]
+        mode = t.weighted([4, 2, 2, 2]) if forced is None else forced[2]
         dlen = dstart = None
         if self.packed:
             # fixed widths, floating positions, sized to fill the bit field
@@ -271,7 +272,11 @@ class BitfieldEngine(object):
             dlen = 1 + t.draw(min(L, 12)) if t.draw(8) else \
                 [0, -1, L, L + 1][t.draw(4)]
         if mode in (2, 3):
-            dstart = t.draw(L) if t.draw(8) else [L, L + 3, -1, -4][t.draw(4)]
+            # (half of the explicit positions crowd into the low byte, so
+            # that explicitly placed fields meet - at definition, or later
+            # when an automatic length has grown)
+            dstart = (t.draw(min(L, 8)) if t.draw(2) else t.draw(L)) \
+                if t.draw(8) else [L, L + 3, -1, -4][t.draw(4)]
         tags = None
         tk = t.draw(6)
         if tk >= 4:
@@ -392,14 +397,17 @@ class BitfieldEngine(object):
             w.probe("add_after_assign")
         w.ops_completed += 1
 
-    def op_derive(self):
-        """A new view with more field values set."""
+    def op_derive(self, forced=None):
+        """A new view with more field values set.  forced: (view, ident) for
+        the scripted prelude (the value is still drawn)."""
         t, w = self.t, self.w
-        v = self.pick_view()
+        v = self.pick_view() if forced is None else forced[0]
         cands = [f for f in self.fields if self.enabled(f, v.fv)]
         vals = {}
-        for _ in range(1 + t.draw(2)):
-            if cands and t.draw(8):
+        for _ in range(1 + t.draw(2) if forced is None else 1):
+            if forced is not None:
+                ident = forced[1]
+            elif cands and t.draw(8):
                 f = cands[t.draw(len(cands))]
                 ident = f.ident
             else:
@@ -716,6 +724,46 @@ class BitfieldEngine(object):
                           kind="getattr")
             w.ops_completed += 1
 
+    def prelude(self):
+        """A scripted opening: two selector fields at the top, sibling scopes
+        under single values of either (defined in a drawn order), in each a
+        field of a drawn kind - crowded explicit positions included - then
+        values for them.  Every step goes through the ordinary operations (and
+        their oracles); only *which* view and name is scripted."""
+        t, w = self.t, self.w
+        w.probe("two_selector_prelude")
+        root = self.views[0]
+        for ident in ("a", "b"):
+            self.op_add_field(forced=(root, ident, [0, 1][t.draw(2)]))
+            if self.ended:
+                return
+        scopes = [("a", 0), ("a", 1), ("b", 0), ("b", 1)]
+        prgen_rng = __import__("random").Random(t.subseed())
+        prgen_rng.shuffle(scopes)
+        names = ["c", "d", "e", "f"]
+        made = []
+        for (sel, val), nm in zip(scopes[:2 + t.draw(3)], names):
+            before = len(self.views)
+            st, obj = self.call(root.obj, **{sel: val})
+            if st != "ok":
+                return
+            nv = View()
+            nv.obj, nv.fv, nv.name = obj, {sel: val}, "v%d" % len(self.views)
+            self.views.append(nv)
+            w.ops.append("bf(%s=%d) -> ok = %s" % (sel, val, nv.name))
+            f = self.resolve(sel, nv.fv)
+            if f is not None:
+                f.maxv = max(f.maxv, val)
+            self.op_add_field(forced=(nv, nm, t.weighted([1, 1, 3, 3])))
+            if self.ended:
+                return
+            made.append((nv, nm))
+        for nv, nm in made:
+            if t.draw(2):
+                self.op_derive(forced=(nv, nm))
+                if self.ended:
+                    return
+
     # -- run -------------------------------------------------------------
     def run(self):
         t, w = self.t, self.w
@@ -736,6 +784,8 @@ class BitfieldEngine(object):
             if self.packed else ""))
         n_ops = t.op_count(1, 30)
         try:
+            if not self.packed and t.draw(8) == 0:
+                self.prelude()
             for _ in range(n_ops):
                 if self.ended:
                     break
